@@ -198,7 +198,7 @@ def gen_cycle(c):
         lines.append('void h_%s(void) { %s %s %s g_depth = %s; g_rank = %d; %s%s%s %s__entry(%s);%s }' % (
             m['name'], decl, c.get('global_depth', ''), pre, dexpr, m['rank'], assume, save, numset, m['name'], ', '.join(names), post))
         rc = ['%s:vc_depth_%s' % (x['name'], x['name']) for x in allm]
-        u = {'id': 'rec.%s.%s' % (c['name'], m['name']), 'props': ['C19', 'C09'] if (c.get('numbering') and m.get('num')) else ['C19'], 'tier': 'quick', 'class': 'bounded', 'group': 'rec.' + c['name'],
+        u = {'id': 'rec.%s.%s' % (c['name'], m['name']), 'props': (['C19', 'C09'] if (c.get('numbering') and m.get('num')) else ['C19']) + (['C10'] if c['name'] in ('unmarshal', 'gcmark') else []), 'tier': 'quick', 'class': 'bounded', 'group': 'rec.' + c['name'],
              'bound': 'loops unwound 2x without unwinding assertion (depth terms are not assigned in loops); every recursive call site must be reached in some unit of the cycle',
              'clause': 'every call of a member of the %s recursion cycle made from %s strictly increases the measure (depth, -rank) and unguarded members are entered only below the limit' % (c['name'], m['name']),
              'src': [c['file']], 'link': c.get('link', []), 'harness': ['gen/rec_%s.c' % c['name']], 'entry': 'h_' + m['name'], 'mode': 'plain',
